@@ -94,9 +94,9 @@ impl FileConfig {
 
         for (key, value) in cfg[0].as_hash().unwrap() {
             match key.as_str().unwrap() {
-                "port" => config.port = value.as_i64().unwrap() as u16,
+                "port" => config.port = Self::int_value(key.as_str().unwrap(), value),
                 "interface" => config.interface = value.as_str().unwrap().to_string(),
-                "batch_size" => config.batch_size = value.as_i64().unwrap() as u8,
+                "batch_size" => config.batch_size = Self::int_value(key.as_str().unwrap(), value),
                 "seed" => {
                     let val = value.as_str().unwrap().to_string();
                     config.seed = HEX
@@ -104,8 +104,8 @@ impl FileConfig {
                         .expect("seed value invalid; 'seed' must be a valid hex value");
                 }
                 "status_interval" => {
-                    let val = value.as_i64().expect("status_interval value invalid");
-                    config.status_interval = Duration::from_secs(val as u64)
+                    let val: u64 = Self::int_value(key.as_str().unwrap(), value);
+                    config.status_interval = Duration::from_secs(val)
                 }
                 "kms_protection" => {
                     let val =
@@ -115,7 +115,7 @@ impl FileConfig {
                     config.kms_protection = val
                 }
                 "health_check_port" => {
-                    let val = value.as_i64().unwrap() as u16;
+                    let val: u16 = Self::int_value(key.as_str().unwrap(), value);
                     config.health_check_port = Some(val);
                 }
                 "client_stats" => {
@@ -127,11 +127,11 @@ impl FileConfig {
                     config.persist_dir = val;
                 }
                 "fault_percentage" => {
-                    let val = value.as_i64().unwrap() as u8;
+                    let val: u8 = Self::int_value(key.as_str().unwrap(), value);
                     config.fault_percentage = val;
                 }
                 "num_workers" => {
-                    let val = value.as_i64().unwrap() as usize;
+                    let val: usize = Self::int_value(key.as_str().unwrap(), value);
                     config.num_workers = val;
                 }
                 unknown => {
@@ -144,6 +144,15 @@ impl FileConfig {
         }
 
         Ok(config)
+    }
+
+    /// Integer value of a setting, refusing (rather than silently wrapping) values that do not
+    /// fit the setting's type
+    fn int_value<T: TryFrom<i64>>(key: &str, value: &yaml_rust::Yaml) -> T {
+        value
+            .as_i64()
+            .and_then(|v| T::try_from(v).ok())
+            .unwrap_or_else(|| panic!("invalid {} value: {:?}", key, value))
     }
 }
 
